@@ -40,6 +40,7 @@ type TierCfg struct {
 	MaxStrLen      int            `json:"max_str_len"`
 	MaxPaths       int            `json:"max_paths"`
 	MaxDecisions   int            `json:"max_decisions"`
+	MaxWallS       int            `json:"max_wall_s"` // wall-clock budget of the harness (default: quick 600, thorough 5400)
 	MaxConcretize  int            `json:"max_concretize"`
 	Preempt        int            `json:"preempt"`
 	Params         map[string]int `json:"params"`
@@ -276,6 +277,14 @@ func cmdCheck(id, tier string) int {
 		} else {
 			eng.MaxPaths = 200000
 		}
+		switch {
+		case tc.MaxWallS > 0:
+			eng.MaxWall = time.Duration(tc.MaxWallS) * time.Second
+		case tier == "quick":
+			eng.MaxWall = 600 * time.Second
+		default:
+			eng.MaxWall = 5400 * time.Second
+		}
 		if tc.MaxDecisions > 0 {
 			eng.MaxDecisions = tc.MaxDecisions
 		} else {
@@ -314,6 +323,10 @@ func cmdCheck(id, tier string) int {
 		hs := map[string]any{"harness": hc.Func, "pkg": hc.Pkg, "about": hc.About, "paths": hr.Paths, "by_status": hr.ByStatus,
 			"decisions": hr.Decisions, "instructions": hr.Instrs, "wall_s": round(hr.WallS), "asserts": hr.Asserts,
 			"reached": hr.Reached, "params": tc.Params, "max_str_len": eng.MaxStrLen}
+		if hr.WallBudgetExceeded {
+			hs["wall_budget_exceeded"] = true
+			problems = append(problems, fmt.Sprintf("%s: wall-clock budget %s exceeded after %d paths (bound not covered; violations found so far are reported)", hc.Func, eng.MaxWall, hr.Paths))
+		}
 		if hr.PathBudgetExceeded {
 			hs["path_budget_exceeded"] = true
 			if tc.PathCapIsBound {
